@@ -1017,7 +1017,7 @@ func c17RunSite(in *c17In) Result {
 	backend, prefix := int64(-1), true
 	over := int64(in.BodyLen) > in.Limit
 	wait := 2 * time.Second
-	if in.Consumer == 1 && over && status == 400 {
+	if in.Consumer == 1 && over && (status == 413 || status == 400) {
 		wait = 40 * time.Millisecond // the buffering proxy gives up before it contacts anyone
 	}
 	deadline := time.Now().Add(wait)
